@@ -1,3 +1,4 @@
 -- Root of the library: every property module (append one line per property).
 import Dasp.Props.C01
 import Dasp.Props.C06
+import Dasp.Props.C12
